@@ -92,8 +92,10 @@ CHECKS.update({
             "ref": "6/C08", "note": _A + "; the wire-level rows use failover logs of <= 3 entries and seqnos <= 3", "technique": _T},
     "C09": {"text": "Chunk.tla transcribes helpers.ChunkSlice / VBucketDiscovery.Get; TLC enumerates every (N,T) of the domain as initial "
                     "states and checks Partition (non-empty, contiguous, ascending, disjoint, exact cover, sizes differ by <= 1) and the "
-                    "closed form; the table it prints is replayed into the real functions (every pair, every member up to a bound) and "
-                    "MonChunk.tla re-checks Partition on what the real code returned. thorough = all 1<=T<=N<=1024.",
+                    "closed form; the table it prints is replayed into the real functions and MonChunk.tla re-checks Partition on what the real "
+                    "code returned: the chunks of helpers.ChunkSlice, and - on their own terms, not by comparison - the vBucket sets "
+                    "VBucketDiscovery.Get returns for the members (every member for N <= 128 / 320 and for group sizes <= 130 or >= N-2, else "
+                    "first / middle / last); purity on one long-lived discovery object against fresh ones. thorough = all 1<=T<=N<=1024.",
             "ref": "6/C09", "note": "pure function: the whole stated domain is enumerated in the thorough tier; quick uses N<=96 plus the bucket sizes in use",
             "technique": "TLA+ transcription model-checked exhaustively (TLC) + table replay into the real function + TLC re-check of its outputs"},
     "C16": {"text": "Scrape / ScrapeRet are actions of Core.tla enabled at any point (incl. while the stream is closed, while a delivery is "
